@@ -75,8 +75,9 @@ AllTail == {"Add", "ConcatAB", "ConcatBA", "AddAssignAB", "AddAssignBA", "Concat
 QuickC10Tail == AllTail \ {"ConcatBB", "AddMany"}
 Profiles ==
   CASE Prop = "C08" /\ Tier = "quick" ->
-         {Prof("adds", Full, 3, {}, 0, {}, {}, 0, 0),
-          Prof("concat", Tiny, 2, Tiny, 2, ConcatTail, {}, 1, 1)}
+         {Prof("adds", Full \ {bn, bp}, 3, {}, 0, {}, {}, 0, 0),
+          \* B + A is the mirror image of A + B here (same alphabet and bound on both sides): thorough only
+          Prof("concat", Tiny, 2, Tiny, 2, {"ConcatAB", "AddAssignAB"}, {}, 1, 1)}
     [] Prop = "C08" /\ Tier = "thorough" ->
          {Prof("adds", Full, 3, {}, 0, {}, {}, 0, 0),
           Prof("deep", Small, 4, {}, 0, {}, {}, 0, 0),
